@@ -161,6 +161,7 @@ func Load(repo string, cfg Config, extra ...string) (*Program, error) {
 	}
 	p.allFuncs = ssautil.AllFunctions(prog)
 	p.Sizes = pkgs[0].TypesSizes
+	platformIntBytes = p.Sizes.Sizeof(types.Typ[types.Int])
 	return p, nil
 }
 
